@@ -386,10 +386,23 @@ func c20FaultLeak(c *run.Ctx) {
 					}
 					return nil
 				}
-				var leaked []string
+				var leaked, unrecognisable []string
 				world.RespTap = func(status int, h http.Header, body string) {
 					if strings.Contains(body, "STORAGE-CANARY") || strings.Contains(fmt.Sprint(h), "STORAGE-CANARY") {
 						leaked = append(leaked, fmt.Sprintf("status %d location %q body %s", status, h.Get("Location"), body))
+					}
+					// an error body names an error code; the catch-all "error" (fosite's rendering of an error it does not recognise)
+					// is not one
+					if status >= 400 && strings.HasPrefix(h.Get("Content-Type"), "application/json") {
+						var m map[string]interface{}
+						if json.Unmarshal([]byte(body), &m) == nil && m["error"] == "error" {
+							unrecognisable = append(unrecognisable, fmt.Sprintf("status %d body %s", status, body))
+						}
+					}
+					if loc := h.Get("Location"); loc != "" {
+						if u, err := url.Parse(loc); err == nil && (u.Query().Get("error") == "error" || strings.Contains(u.Fragment, "error=error&") || strings.HasSuffix(u.Fragment, "error=error")) {
+							unrecognisable = append(unrecognisable, fmt.Sprintf("status %d location %s", status, loc))
+						}
 					}
 				}
 				fl.fire(st)
@@ -397,6 +410,10 @@ func c20FaultLeak(c *run.Ctx) {
 				st.w.Store.Pre = nil
 				c.Case(fmt.Sprintf("storage-fault-text flow=%s db=%v call=%s leaked=%v", fl.name, db, recorded[k].Method, len(leaked) > 0))
 				c.Count("c20_fault_responses_scanned", 1)
+				if len(unrecognisable) > 0 {
+					c.Violate(run.Violation{Kind: "error-code-not-rfc", Key: fmt.Sprintf("error-code-not-rfc storage failure flow=%s call=%s", fl.name, recorded[k].Method),
+						Detail: "the error response names no error code of the protocol but the catch-all \"error\": " + unrecognisable[0]})
+				}
 				if len(leaked) > 0 {
 					c.Violate(run.Violation{Kind: "debug-leaked", Key: fmt.Sprintf("debug-leaked storage error text flow=%s call=%s", fl.name, recorded[k].Method),
 						Detail: "debug exposure is off, yet the response carries the text of the failed storage call: " + leaked[0]})
